@@ -183,6 +183,7 @@ EXTRACTORS = [ex_reverb, ex_delay]
 # ------------------------------------------------------------------------------------------
 sys.path.insert(0, os.path.dirname(os.path.abspath(__file__)))
 import rs2lean as X  # noqa: E402
+import rs2lean_mut as XM  # noqa: E402
 
 OUT_DIR = os.environ.get("KV_GEN_OUT") or os.path.join(ROOT, "lean", "KiraModel")
 OUT = os.path.join(OUT_DIR, "Gen.lean")
@@ -488,6 +489,19 @@ class Session:
             self.manifest.append((fd["what"], f"K.Gen.{lean}", "function"))
         self.guarded(f"{rel}::{header}::{name}", go)
 
+    def mut_fn(self, rel, header, name, lean, state, tier=1):
+        """translate the straight-line `&mut self` method `name` of the checked struct `state` into a pure
+        `State → args → Except Fault State` (tools/rs2lean_mut.py)"""
+        self.items.append({"kind": "fn", "rel": rel, "header": header, "name": name, "lean": lean})
+        def go():
+            if state not in self.w.structs:
+                raise X.XlateError(f"{rel}::{header}::{name}: state struct {state} is not a checked struct")
+            st = self.w.structs[state]
+            fd = self.source(rel).fn(header, name, parser_cls=XM.MutParser)
+            self.emit(tier, XM.translate_method(fd, lean, st["lean"], st["fields"]))
+            self.manifest.append((fd["what"], f"K.Gen.{lean}", "&mut self method"))
+        self.guarded(f"{rel}::{header}::{name}", go)
+
     def nat_const(self, rel, pattern, what, lean, doc, tier=0):
         self.items.append({"kind": "nat_const", "rel": rel, "pattern": pattern, "name": what, "lean": lean})
         def go():
@@ -523,6 +537,9 @@ def translate(S):
              {f: (f, "f64") for f in ("a1", "a2", "a3", "m0", "m1", "m2")})
     S.enum("start_time.rs", "StartTime")
     S.enum("sound.rs", "EndPosition")
+    S.struct("sound/transport.rs", "Transport", "Transport",
+             {"position": ("position", "usize"), "loop_region": ("loopRegion", "Option<(usize, usize)>"),
+              "playing": ("playing", "bool")})
 
     # -- constants
     S.const("decibels.rs", "impl Decibels", "SILENCE", "decibelsSilence", owner="Decibels")
@@ -605,6 +622,12 @@ def translate(S):
 
     # -- playback state
     S.fn("sound.rs", "impl PlaybackState", "is_advancing", "playbackStateIsAdvancing", self_type="PlaybackState")
+
+    # -- the transport: straight-line `&mut self` methods (tools/rs2lean_mut.py).  `set_loop_region` (closures,
+    #    `into_samples`) is outside the subset and is not listed.
+    S.mut_fn("sound/transport.rs", "impl Transport", "increment_position", "transportIncrementPosition", "Transport")
+    S.mut_fn("sound/transport.rs", "impl Transport", "decrement_position", "transportDecrementPosition", "Transport")
+    S.mut_fn("sound/transport.rs", "impl Transport", "seek_to", "transportSeekTo", "Transport")
 
     # -- spatial tracks
     S.const("track/sub.rs", None, "EAR_DISTANCE", "earDistance", in_fn="listener_ear_positions")
@@ -698,7 +721,7 @@ def main():
     text_fn = ("/-\n  GenFn.lean — GENERATED by tools/gen_lean.py (translator: tools/rs2lean.py) from the Rust source on every "
                "check run.\n  Do not edit.  Imports only the numeric interface, Gen.lean and the hand-written type "
                "declarations\n  (all core-only), so the twin still links natively.\n-/\n"
-               "import KiraModel.Num\nimport KiraModel.Gen\nimport KiraModel.Model.UnitTypes\n\nnamespace K.Gen\n\n"
+               "import KiraModel.Num\nimport KiraModel.Gen\nimport KiraModel.Model.Fault\nimport KiraModel.Model.UnitTypes\n\nnamespace K.Gen\n\n"
                + VARIABLE + "\n" + "\n".join(S.tier1) + "\nend K.Gen\n")
     for path, body in ((OUT_FN, text_fn),):
         oldb = open(path).read() if os.path.exists(path) else None
